@@ -73,6 +73,8 @@ out += ["What the misses of the first round had in common, and what was added (s
 "",
 "Fourth round (22 missed at first; the agents were told to prefer triggers that a generator of typical programs rarely produces): *sizes and counts just past a threshold* - 13 rules, 32-element arrays, pad counts that are multiples of 64, 65 536 frames, a value at byte offset 512 of the input, 19-digit widths (C02, C15, C18, C08, C04, C20); *values that are null by absence or look like something else* - a missing member compared with 0, a pushed `b[9]`, a string that spells a number given to %f, dotted pluck keys, a regex held in a variable (C02, C15, C18, C16, C12); *receivers and operands that were never stored* - `s[0].upper()`, a number literal with a method suffix after `*`, `!x is T` (C16, C06); *program shapes* - BEGIN-only programs on damaged input, comma-less object literals, body-less rules around method-only changes, prints whose arguments print (C03, C13, C17); *short reads* - the same bytes in reads of one byte (C10). One agent reported, while probing, a crash that was already in the tree (F25, section 5): none of my checks had a call whose argument assigns to its own receiver.",
 "",
+"Fifth round: again triggers chosen to be rare - a condition re-evaluated only when its operands are of different kinds, a literal of 8+ items, a subscript of 14+ tokens, 18 distinct regex texts, documents nested deeper than 4096, digit strings of 17+ digits, doubles 4 ulp apart, a byte at offset 0, the binary's own stack ceiling, file operands naming one file twice, `-o` onto the input file. Writing a hand-computed program for one of them (own keys named like methods) exposed defect F26 (section 5) on the unchanged tree.",
+"",
 "### 8.2 The reverse of every repair",
 "",
 "`tools/reverse_all.sh` undoes each `fix:` commit (or pair of commits) of /repo on a scratch copy and runs the check of the property it is recorded under:",
